@@ -153,7 +153,7 @@ impl<'a> TryFrom<&'a str> for Header<'a> {
             None => input.len(),
         };
 
-        parse_header(&input[..length])
+        parse_header(input.get(..length).ok_or(ParseError::InvalidSuffix)?)
     }
 }
 
